@@ -21,8 +21,9 @@ def params_line(ex):
         1 if c.get("incRmw") else 0, 1 if c.get("preLoad") else 0, 1 if c.get("resetXchg") else 0)
 
 
-def build():
-    return vlib.build_harness("h1_reg", ["h1_reg.cpp"], extra_flags=["-fno-access-control"])
+def build(ex):
+    from extractors.spin import spin_flag_define
+    return vlib.build_harness("h1_reg", ["h1_reg.cpp"], extra_flags=["-fno-access-control", spin_flag_define(ex)])
 
 
 def split_cases(out):
@@ -66,7 +67,7 @@ def run_harness(hbin, args, timeout=900):
 
 
 def run(ck, prop, tier, ex, ps):
-    ok, hbin, log = build()
+    ok, hbin, log = build(ex)
     if not ok:
         ck.violation("harness_build_reg", log, "harness h1_reg no longer compiles against the current tree (correspondence of the registration / failure-counter protocols broken): " + log[-300:], no_input=True)
         return None
@@ -178,11 +179,11 @@ def run(ck, prop, tier, ex, ps):
 
 
 def replay(prop, path):
-    ok, hbin, log = build()
+    ex = vlib.run_extract()
+    ok, hbin, log = build(ex)
     if not ok:
         print(log)
         return 2
-    ex = vlib.run_extract()
     rc, out = run_harness(hbin, ["replay", path])
     print(out)
     rcd, dout = vlib.driver(["reg", "trace"], stdin_data=(params_line(ex) + "\n" + out).encode())
